@@ -55,7 +55,7 @@ def gen_script(rng):
     return kind, P, R
 
 
-def run_script(kind, phases, resets, bound_s):
+def run_script(kind, phases, resets, bound_s, yielding=False):
     from geckolib import GeckoAsyncSpaMan
     res = {"events": [], "inputs": [], "samples": []}
 
@@ -68,6 +68,8 @@ def run_script(kind, phases, resets, bound_s):
             async def handle_event(self, event, **kw):
                 name = str(event).split(".")[-1]
                 res["events"].append((round(loop.time(), 2), name, str(self.spa_state).split(".")[-1]))
+                if yielding:
+                    await asyncio.sleep(0)      # a client whose handler really suspends (an automation system's does)
         m = Man("uuid-1", spa_identifier=IDENT, spa_address="10.0.0.9", spa_name="Spa")
         await m.__aenter__()
         pump = [t for t in asyncio.all_tasks() if t.get_name() == "SPAMAN:Sequence Pump"][0]
@@ -180,10 +182,12 @@ def run(ctx):
                 if k == bk:
                     scripts.append((k, P, R))
                     break
-    for (k, P, R) in scripts:
-        inp = {"kind": k, "phases": P, "resets": R}
+    for n_s, (k, P, R) in enumerate(scripts):
+        yielding = n_s % 2 == 1
+        inp = {"kind": k, "phases": P, "resets": R, "yielding": yielding}
+        ctx.hist("client_handler", "yields" if yielding else "returns-at-once")
         try:
-            res = run_script(k, P, R, bound_idle)
+            res = run_script(k, P, R, bound_idle, yielding)
         except Exception as e:  # noqa
             ctx.violation(f"script-raised:{k}", inp, "the stack runs", f"{type(e).__name__}: {e}")
             continue
@@ -240,7 +244,7 @@ def run(ctx):
         ctx.cov["correspondence_ops"] = len(lines)
     ctx.cov["distinct_nontrivial"] = len(nontrivial)
     ctx.cov["rule"] = ("seeded fault scripts on the full real stack: healthy, blackout at start (3/12/30 s), blackout mid-session (5..400 s), double blackout, RF-error period, "
-                       "lossy period, blackout right after discovery (handshake loss), user reset in steady state / inside the handshake / during discovery; after the last fault "
+                       "lossy period, blackout right after discovery (handshake loss), user reset in steady state / inside the handshake / during discovery; every second script with a client event handler that really suspends; after the last fault "
                        "the network is healthy for the model's bound + 5 s. evaluations = scripts; distinct = (kind, macro-input sequence, final state)")
     ctx.assumptions += ["the spa is the bundled simulator with the default snapshot; virtual time with FIFO-stable timers",
                         "recovery bound = next ping + two discoveries + four requests with all their retries (idle timing table)"]
@@ -248,6 +252,6 @@ def run(ctx):
 
 def replay(inp):
     from common import Ctx
-    res = run_script(inp["kind"], [tuple(p) for p in inp["phases"]], [tuple(r) for r in inp["resets"]], 369)
+    res = run_script(inp["kind"], [tuple(p) for p in inp["phases"]], [tuple(r) for r in inp["resets"]], 369, inp.get("yielding", False))
     fin = res["final"]
     return (fin["st"] != "CONNECTED" or not fin["pump"]), fin
